@@ -154,7 +154,8 @@ def _b(v):
 def _e2e_two_sided(args, sh):
     a2 = A2[sh.get("a2", 1)]
     tss = [TS[0], TS[1]] if sh.get("wide", 1) else [TS[2]]
-    requested = [(1, AB[1], tss)] + ([(3, AB[a2], [TS[0], TS[2]])] if a2 is not None else [])
+    ts3 = [TS[0]] if sh.get("n3", 0) else [TS[0], TS[2]]
+    requested = [(1, AB[1], tss)] + ([(3, AB[a2], ts3)] if a2 is not None else [])
     roles = {AB[1]: (_b(args["rq_scu"]), _b(args["rq_scp"]))} if _b(args["has_role"]) else {}
     if roles and _b(args.get("as_none", False)):
         roles = {AB[1]: (roles[AB[1]][0] or None, roles[AB[1]][1] or None)}
@@ -187,7 +188,10 @@ A2_TIER = tier([1, 2], [0, 1, 2, 3])     # quick: second context = Verification 
 
 
 def _two_sided_shards():
-    return [{"a2": i, "wide": w, "sup0": s0} for i in A2_TIER for w in (0, 1) for s0 in (0, 1)]
+    base = [{"a2": i, "wide": w, "sup0": s0} for i in A2_TIER for w in (0, 1) for s0 in (0, 1)]
+    # same abstract syntax proposed twice, the second time with a transfer syntax the acceptor does not support:
+    # accepted context + rejected duplicate (seeded change C11-role-reply-dropped-by-later-rejected-duplicate)
+    return base + [{"a2": 2, "wide": w, "sup0": s0, "n3": 1} for w in (0, 1) for s0 in (0, 1)]
 
 
 @harness(
@@ -199,7 +203,8 @@ def _two_sided_shards():
                "association:ServiceUser.role_selection"],
     bounds="requested contexts: id 1 = abstract syntax AB[1] with one of two transfer-syntax lists, id 3 = "
            + ("Verification or AB[1] again" if len(A2_TIER) == 2 else "absent or any of the pool of 3")
-           + " (one shard per choice); role item for AB[1] absent or any of the three proposals a requestor can encode"
+           + " (one shard per choice; the repeated AB[1] also with a transfer-syntax list the acceptor does not support, so that "
+           "an accepted context is followed by a rejected duplicate); role item for AB[1] absent or any of the three proposals a requestor can encode"
            + (" (not-proposed flag given as False or as None)" if NONE_FLAGS else "") + "; AB[1] "
            "supported or not on the acceptor with role settings in {None, True, False}^2; Verification supported or not; role "
            "flags and settings solver-symbolic, list shapes are shard parameters",
@@ -229,7 +234,7 @@ def two_sided(has_role: bool, rq_scu: bool, rq_scp: bool, as_none: bool, sup1: b
     tss = [TS[0], TS[1]] if wide else [TS[2]]
     requested = [(1, AB[1], tss)]
     if a2 is not None:
-        requested.append((3, AB[a2], [TS[0], TS[2]]))
+        requested.append((3, AB[a2], [TS[0]] if shard("n3", 0) else [TS[0], TS[2]]))
     roles = {}
     if has_role:
         roles[AB[1]] = (True if rq_scu else False, True if rq_scp else False)
